@@ -206,9 +206,9 @@ func viewModelCases(g *gen) {
 	do := func(kind string, b []byte) {
 		obs := g.r.Do("vw", kind, lib.Hex(b))
 		g.r.Stat("vw."+kind+"."+map[bool]string{true: "invalid", false: "valid"}[obs == "invalid"], 1)
-		// String() renders on a line from the sync.Pool, whose stale contents show through the 0-2 byte gap that a
-		// TRUNCATED ByteArray leaves before its marker: only frames whose text cannot be truncated are compared
-		if stringViaFastLog[kind] && len(b) <= 600 && rng.Chance(50) {
+		// String() renders on a line from the sync.Pool; since /repo's ByteArray blanks its truncation gap the text
+		// no longer depends on what the pooled line held
+		if stringViaFastLog[kind] && rng.Chance(50) {
 			g.r.Do("vs", kind, lib.Hex(b))
 		}
 	}
